@@ -17,7 +17,12 @@ PROP = {'rule': 'rapid-generated histories of 1-5 slo-controller ConfigMap event
          '(sloconfig.Default*Strategy marshalled; empty for qos and hostapp); absent section = defaults; malformed section = what the '
          'same node had after the previous event. non-trivial = some judged event where >=2 entries match the node, the first two set '
          'different paths (hostapp: different lists) and the cluster level sets a path one of them sets. distinct = FNV-64 of node '
-         'labels + all texts of the focused section.',
+         'labels + all texts of the focused section. Sixth test TestVerifC20Reapply (unit reapply): same engine and oracle, '
+         'judged section drawn per case, 3-7 events, delete probability 0.2; the modes aim at removing the section key (or deleting '
+         'the ConfigMap) and then applying an EARLIER text of that section again byte for byte (also over a different text, also a '
+         'malformed one; the other sections are removed / kept / re-applied the same way); the expectation after every event is '
+         'computed from the current ConfigMap text only. non-trivial there = a valid earlier text is re-applied after the section '
+         'was gone (key removed or ConfigMap deleted) and yields non-default settings for some node.',
  'assumptions': ['"sets the field" is read on the JSON text: a key that is absent, null, "" for a by-value string field, {} for a map or '
                  '[] for a list of blkio blocks does not set anything; unknown keys are ignored. Host applications: an entry with '
                  '"applications": [] sets the list (no applications), an entry without the key does not (cluster list); null is '
@@ -40,7 +45,8 @@ PROP = {'rule': 'rapid-generated histories of 1-5 slo-controller ConfigMap event
                       {'run': 'TestVerifC20ResourceQOS', 'quick': 4000, 'thorough': 10000, 'shards': 6},
                       {'run': 'TestVerifC20CPUBurst', 'quick': 4000, 'thorough': 10000, 'shards': 6},
                       {'run': 'TestVerifC20System', 'quick': 4000, 'thorough': 10000, 'shards': 6},
-                      {'run': 'TestVerifC20HostApp', 'quick': 4000, 'thorough': 10000, 'shards': 6}]}],
+                      {'run': 'TestVerifC20HostApp', 'quick': 4000, 'thorough': 10000, 'shards': 6},
+                      {'run': 'TestVerifC20Reapply', 'quick': 3000, 'thorough': 10000, 'shards': 6}]}],
  'manifest': {'technique': 'property-based testing (rapid): generated ConfigMap histories with reflection-driven strategy generators and a '
                            'text-level reference model of the default < cluster < first-matching-entry layering',
               'text': 'Generated-input search: histories of ConfigMap events are fed to the real event handler; after each event the '
